@@ -88,7 +88,8 @@ def encodeAdu (tid : UInt16) (uid : UInt8) (encPdu : Bytes → Res (Nat × Bytes
   (encPdu (buf.drop 7)).bind fun (len, tail) =>
   let buf := buf.take 7 ++ tail
   if buf.length < len + 7 then .err .bufferSize else
-  finish (len + 7) (applyWrites buf [(4, be16 (UInt16.ofNat (len + 1)))])
+  (u16TryFrom (len + 1)).bind fun mLength =>
+  finish (len + 7) (applyWrites buf [(4, be16 mLength)])
 
 def encodeRequest (tid : UInt16) (uid : UInt8) (r : Request) (buf : Bytes) : Res (Nat × Bytes) :=
   encodeAdu tid uid (RequestPdu.encode r) buf
